@@ -221,21 +221,22 @@ def signChain (P : Params) : Bytes → List Bytes → List (Bytes × Bytes) × B
     let (rest, last) := signChain P s ds
     ((d, s) :: rest, last)
 
+/-- the `name:value` checksum line a client appends when the mode has a trailer and the declared
+algorithm is one the checksum function stands for -/
+def checksumLine (P : Params) (payload : Bytes) : Bytes :=
+  match P.cksum with
+  | some f => if P.hasTrailer then P.trailerName ++ 58 :: f payload else []
+  | none => []
+
 /-- the frame a conforming client produces for `payload` -/
 def frameOf (P : Params) (payload : Bytes) (sizes : List Nat) : Frame :=
   let datas := splitSizes sizes payload
   if P.skipValidation then
-    { chunks := datas.map (·, []), finalSig := [],
-      trailerLine := match P.cksum with
-        | some f => if P.hasTrailer then P.trailerName ++ [58] ++ f payload else []
-        | none => [],
-      trailerSignature := [] }
+    { chunks := datas.map (·, []), finalSig := [], trailerLine := checksumLine P payload, trailerSignature := [] }
   else
     let (chunks, last) := signChain P P.seed datas
     let fin := chunkSig P last []
-    let line := match P.cksum with
-      | some f => if P.hasTrailer then P.trailerName ++ [58] ++ f payload else []
-      | none => []
+    let line := checksumLine P payload
     { chunks := chunks, finalSig := fin, trailerLine := line,
       trailerSignature := if P.hasTrailer && P.trailerSigned then trailerSig P fin line else [] }
 
